@@ -424,6 +424,7 @@ def replay_file(prop, path):
 # the driver
 
 TIER_BUDGET = {'quick': 1.0, 'thorough': 1.0}
+PER_RUN_CAP = 1500
 
 
 def nshards_for(leg, shards):
@@ -498,6 +499,11 @@ def run_property(prop_name, tier='quick', seed=1, shards=None, only_leg=None, sc
     for leg in legs:
         n_total = int(leg.examples.get(tier, leg.examples.get('quick', 1000)) * scale)
         ns = nshards_for(leg, shards)
+        if leg.kind == 'hyp' and not leg.max_shards:
+            # Hypothesis keeps the tree of every example it has generated: the memory of one run grows with its example
+            # count (gigabytes for 10^4 large scripts).  A leg is therefore cut into runs of at most PER_RUN_CAP examples,
+            # each in a process of its own with its own seed, at most `shards` of them alive at a time.
+            ns = max(ns, (n_total + PER_RUN_CAP - 1) // PER_RUN_CAP)
         per = max(1, (n_total + ns - 1) // ns)
         for s in range(ns):
             jobs.append((leg, s, ns, per))
